@@ -381,7 +381,8 @@ func (r *Result) Oracle(keyHint string, fail func(what, key string)) {
 	}
 	if r.Validate.Class <= 1 && r.Build.Class <= 1 {
 		switch {
-		case r.Validate.Class == 0 && r.Build.Class == 1 && r.Build.Code != 9:
+		case r.Validate.Class == 0 && r.Build.Class == 1 && (r.Build.Code != 9 || strings.HasPrefix(r.Build.Msg, "aes")):
+			// only certificate / key CONTENTS may be rejected by Build alone; AES key and IV sizes are validate's business
 			fail("Validate accepts but Build rejects: "+r.Build.Msg, "validate-ok-build-err-"+keyHint)
 		case r.Validate.Class == 1 && r.Build.Class == 0:
 			fail("Validate rejects ("+r.Validate.Msg+") but Build accepts", "validate-err-build-ok-"+keyHint)
